@@ -7,7 +7,7 @@ args = sys.argv[1:]
 if args and args[0] in ('quick', 'thorough'):
     tier = args.pop(0)
 root = '/verif/seeded'
-ids = args or sorted(d for d in os.listdir(root) if os.path.isdir(os.path.join(root, d)))
+ids = args or sorted(d for d in os.listdir(root) if os.path.isfile(os.path.join(root, d, 'meta.json')))
 path = os.path.join(root, 'RESULTS.json')
 res = json.load(open(path)) if os.path.exists(path) else {}
 have = {f[:-3].upper() for f in os.listdir('/verif/vf/props') if f.startswith('c') and f.endswith('.py')}
